@@ -104,6 +104,49 @@ Theorem C16_constants_are_protocol_numbers :
   forallb (fun c => (snd c <? 64)%nat) access_consts = true.
 Proof. vm_compute. repeat split. Qed.
 
+(* bit numbering used by authorization decisions: Set i then IsSet j answers exactly (i = j) or the old bit,
+   on the same 8 wire bytes (bit i counted from the most significant bit of byte i/8) *)
+Theorem C16_set_then_isset_same_numbering :
+  forall (b : bitmap) (i j : nat), (i < 64)%nat -> (j < 64)%nat -> List.length b = 8%nat ->
+    IsSet (SetBit b i) j = (i =? j)%nat || IsSet b j.
+Proof. exact IsSet_SetBit. Qed.
+
+(* a second save/load round changes nothing more: the stored form is stable *)
+Lemma save_load_idem_gen b : bitmap_wf b ->
+  let r := load_named load_table (save_named save_fields save_tags b) in
+  load_named load_table (save_named save_fields save_tags r) = r.
+Proof.
+  intros Hb r. apply bitmap_ext.
+  - apply load_named_wf.
+  - apply load_named_wf.
+  - intros i Hi. subst r. rewrite !save_load_bits_gen by exact Hi. now destruct (IsSet b i), (defined_bit i).
+Qed.
+
+Theorem C16_save_load_idempotent :
+  forall b, bitmap_wf b ->
+    let r := load_named load_table (save_named save_fields save_tags b) in
+    load_named load_table (save_named save_fields save_tags r) = r.
+Proof. exact save_load_idem_gen. Qed.
+
+(* exactly the bitmaps made of defined privileges survive a save/load unchanged *)
+Lemma save_load_fixed_iff_gen b : bitmap_wf b ->
+  (load_named load_table (save_named save_fields save_tags b) = b <->
+   forall i, (i < 64)%nat -> IsSet b i = true -> defined_bit i = true).
+Proof.
+  intros Hb. split.
+  - intros E i Hi Hs. pose proof (save_load_bits_gen b i Hi) as H. rewrite E, Hs in H.
+    cbn [andb] in H. now symmetry.
+  - intros H. apply bitmap_ext; [apply load_named_wf | exact Hb |].
+    intros i Hi. rewrite save_load_bits_gen by exact Hi.
+    destruct (IsSet b i) eqn:Hs; [|reflexivity]. cbn [andb]. now apply H.
+Qed.
+
+Theorem C16_save_load_unchanged_iff_only_defined :
+  forall b, bitmap_wf b ->
+    (load_named load_table (save_named save_fields save_tags b) = b <->
+     forall i, (i < 64)%nat -> IsSet b i = true -> defined_bit i = true).
+Proof. exact save_load_fixed_iff_gen. Qed.
+
 (* non-vacuity *)
 Example C16_nonvacuous :
   load_named load_table (save_named save_fields save_tags [160;0;16;0;0;128;0;1]) = [160;0;0;0;0;128;0;0].
@@ -115,3 +158,6 @@ Print Assumptions C16_legacy_array_form_as_modelled.
 Print Assumptions C16_legacy_equals_named.
 Print Assumptions C16_names_match_protocol.
 Print Assumptions C16_constants_are_protocol_numbers.
+Print Assumptions C16_set_then_isset_same_numbering.
+Print Assumptions C16_save_load_idempotent.
+Print Assumptions C16_save_load_unchanged_iff_only_defined.
